@@ -18,6 +18,7 @@ import (
 	"github.com/ethereum/go-ethereum/core/state"
 	"github.com/ethereum/go-ethereum/core/vm"
 	"github.com/ethereum/go-ethereum/core/vm/runtime"
+	"github.com/ethereum/go-ethereum/crypto"
 	"github.com/ethereum/go-ethereum/params"
 
 	hub2 "github.com/MinterTeam/mhub2/module/solidity"
@@ -95,6 +96,7 @@ type Host struct {
 	Block  uint64
 	Hub    common.Address
 	Token  common.Address
+	Token2 common.Address // a second ERC-20 (same bytecode), deployed after Hub2
 	Origin common.Address
 }
 
@@ -139,6 +141,11 @@ func New(gravityID [32]byte, threshold *big.Int, validators []common.Address, po
 		return nil, fmt.Errorf("deploy hub2: %w", err)
 	}
 	h.Hub = hubAddr
+	_, tok2, _, err := runtime.Create(wethBin, h.cfg(h.Origin, nil))
+	if err != nil {
+		return nil, fmt.Errorf("deploy token2: %w", err)
+	}
+	h.Token2 = tok2
 	return h, nil
 }
 
@@ -205,4 +212,82 @@ func RevertReason(ret []byte) string {
 		return ""
 	}
 	return r
+}
+
+// Log is one event emitted by the Hub2 contract.
+type Log struct {
+	Name   string
+	Topics []common.Hash
+	Values map[string]interface{} // non-indexed arguments, decoded with the contract ABI
+}
+
+// CallLogs is Call plus the Hub2 events the call emitted (nil on revert).
+func (h *Host) CallLogs(origin common.Address, method string, args ...interface{}) ([]Log, []byte, error) {
+	in, err := Hub2ABI.Pack(method, args...)
+	if err != nil {
+		return nil, nil, fmt.Errorf("pack %s: %w", method, err)
+	}
+	before := len(h.State.Logs())
+	snap := h.State.Snapshot()
+	ret, _, err := runtime.Call(h.Hub, in, h.cfg(origin, nil))
+	if err != nil {
+		h.State.RevertToSnapshot(snap)
+		return nil, ret, err
+	}
+	var out []Log
+	all := h.State.Logs()
+	for _, l := range all[before:] {
+		if l.Address != h.Hub || len(l.Topics) == 0 {
+			continue
+		}
+		ev, err := Hub2ABI.EventByID(l.Topics[0])
+		if err != nil {
+			continue
+		}
+		vals := map[string]interface{}{}
+		if err := Hub2ABI.UnpackIntoMap(vals, ev.Name, l.Data); err != nil {
+			return nil, ret, fmt.Errorf("decode %s: %w", ev.Name, err)
+		}
+		out = append(out, Log{Name: ev.Name, Topics: l.Topics, Values: vals})
+	}
+	return out, ret, nil
+}
+
+// Deposit: origin wraps `amount` wei into the token, approves Hub2 and calls transferToChain.
+func (h *Host) Deposit(token common.Address, chain string, dest [32]byte, amount, fee *big.Int) ([]Log, error) {
+	in, _ := WethABI.Pack("deposit")
+	if _, _, err := runtime.Call(token, in, h.cfg(h.Origin, amount)); err != nil {
+		return nil, err
+	}
+	in, _ = WethABI.Pack("approve", h.Hub, amount)
+	if _, _, err := runtime.Call(token, in, h.cfg(h.Origin, nil)); err != nil {
+		return nil, err
+	}
+	var ch [32]byte
+	copy(ch[:], chain)
+	logs, _, err := h.CallLogs(h.Origin, "transferToChain", token, ch, dest, amount, fee)
+	return logs, err
+}
+
+// BalanceOf reads an ERC-20 balance.
+func (h *Host) BalanceOf(token, a common.Address) *big.Int {
+	in, _ := WethABI.Pack("balanceOf", a)
+	c := h.cfg(h.Origin, nil)
+	c.State = h.State.Copy()
+	ret, _, err := runtime.Call(token, in, c)
+	if err != nil {
+		panic(err)
+	}
+	return new(big.Int).SetBytes(ret)
+}
+
+// Root is a canonical digest of the whole EVM world (state root + block number).
+func (h *Host) Root() string {
+	c := h.State.Copy()
+	return fmt.Sprintf("%x@%d", c.IntermediateRoot(true).Bytes()[:12], h.Block)
+}
+
+// TokenAddress is the address the i-th token contract gets (creations 0 and 2 by Origin; Hub2 is creation 1).
+func TokenAddress(i int) common.Address {
+	return crypto.CreateAddress(common.HexToAddress("0x00000000000000000000000000000000000000Aa"), uint64(2*i))
 }
